@@ -302,7 +302,7 @@ def main():
         "checks": checks,
         "not_applicable": na,
         "notes": ("Static analysis only: no registered command executes allsorts code. Genuine defects found by the rules are either "
-                  "repaired by `fix:` commits in /repo or listed in /verif/known_findings.txt (see DESIGN.md section 8)."),
+                  "repaired by `fix:` commits in /repo or listed in /verif/known_findings.txt (see DESIGN.md section 11.3: 93 repaired, one known finding)."),
     }
     with open(os.path.join(HERE, "MANIFEST.json"), "w") as fh:
         json.dump(m, fh, indent=1)
